@@ -507,6 +507,10 @@ def run_whatshap(
 
         superreads: Dict[str, ReadSet]
         components: Dict
+        # The recombination and changed-genotype lists are written piecewise (per chromosome
+        # and family); only the first piece may truncate the file
+        recombination_list_started = False
+        gtchange_list_started = False
         for variant_table in timers.iterate("parse_vcf", vcf_reader):
             chromosome = variant_table.chromosome
             if chromosomes and chromosome not in chromosomes:
@@ -685,7 +689,9 @@ def run_whatshap(
                         recombination_costs,
                         transmission_vector,
                         trios,
+                        append=recombination_list_started,
                     )
+                    recombination_list_started = True
                     logger.info("Total no. of detected recombination events: %d", n_recombinations)
 
                 # Superreads in superreads_list are in the same order as individuals were added to the pedigree
@@ -717,7 +723,10 @@ def run_whatshap(
 
             if gtchange_list_filename:
                 logger.info("Writing list of changed genotypes to %r", gtchange_list_filename)
-                write_changed_genotypes(gtchange_list_filename, changed_genotypes)
+                write_changed_genotypes(
+                    gtchange_list_filename, changed_genotypes, append=gtchange_list_started
+                )
+                gtchange_list_started = True
 
             logger.debug("Chromosome %r finished", chromosome)
 
@@ -1011,11 +1020,10 @@ def find_mendelian_conflicts(trios: Sequence[Trio], variant_table: VariantTable)
     return mendelian_conflicts
 
 
-def write_changed_genotypes(gtchange_list_filename, changed_genotypes):
-    with open(gtchange_list_filename, "w") as f:
-        print(
-            "#sample", "chromosome", "position", "REF", "ALT", "old_gt", "new_gt", sep="\t", file=f
-        )
+def write_changed_genotypes(gtchange_list_filename, changed_genotypes, append=False):
+    with open(gtchange_list_filename, "a" if append else "w") as f:
+        if not append:
+            print("#sample\tchromosome\tposition\tREF\tALT\told_gt\tnew_gt", file=f)
         for changed_genotype in changed_genotypes:
             print(
                 changed_genotype.sample,
@@ -1038,6 +1046,7 @@ def write_recombination_list(
     recombination_costs: Sequence[int],
     transmission_vector: Sequence[int],
     trios: Sequence[Trio],
+    append: bool = False,
 ) -> int:
     """Return total number of recombinations"""
 
@@ -1047,20 +1056,21 @@ def write_recombination_list(
             value = transmission_vector_value % 4
             transmission_vector_value = transmission_vector_value // 4
             transmission_vector_trio[trio.child].append(value)
-    with open(path, "w") as f:
+    with open(path, "a" if append else "w") as f:
         n = 0
-        print(
-            "#child_id",
-            "chromosome",
-            "position1",
-            "position2",
-            "transmitted_hap_father1",
-            "transmitted_hap_father2",
-            "transmitted_hap_mother1",
-            "transmitted_hap_mother2",
-            "recombination_cost",
-            file=f,
-        )
+        if not append:
+            print(
+                "#child_id",
+                "chromosome",
+                "position1",
+                "position2",
+                "transmitted_hap_father1",
+                "transmitted_hap_father2",
+                "transmitted_hap_mother1",
+                "transmitted_hap_mother2",
+                "recombination_cost",
+                file=f,
+            )
         for trio in trios:
             recombination_events = find_recombination(
                 transmission_vector_trio[trio.child],
